@@ -42,12 +42,12 @@ theorem ChanInv.setLastAccess {s : ChanSt} (h : ChanInv s) (act : Action) (pid :
 /-! ### the two effects, as equations -/
 
 /-- `sendEffect` cannot fail on a channel object; it stores `chanSend …` and, when the channel was
-empty, makes the other threads pending on this object runnable -/
+empty, wakes the other threads pending on this object (`Thread.wake`) -/
 theorem sendEffect_eq (w : World) (o : Nat) (v : Int) (s : ChanSt) (h : w.getChan o = .ok s) :
     w.sendEffect o v = .ok (
       if s.msgCnt = 0 then
         (w.setObj o (.chan (chanSend s w.ths.activeT.released w.ths.caus v))).forOthers
-          (fun op => op.obj == o) Thread.setRunnable
+          (fun op => op.obj == o) Thread.wake
       else w.setObj o (.chan (chanSend s w.ths.activeT.released w.ths.caus v))) := by
   unfold World.sendEffect
   simp only [h, chanSend, Threads.syncStore, ok_bind]
@@ -201,13 +201,14 @@ theorem RecvFacts.caus {w w' : World} {o : Nat} {s : ChanSt} {v : Int} {sy : Syn
 /-! ### waking and blocking the other threads -/
 
 /-- thread table after a send: if the channel was empty, every *other* thread whose pending
-operation is on this object becomes `Runnable` (whatever its action: `Thread::set_runnable` also
-clears an `unparked` flag); nothing else changes -/
+operation is on this object is woken (`Thread.wake`: a blocked thread becomes `Runnable`, whatever its
+action; a thread that is not blocked — e.g. one holding an unpark token — is left alone: repair of
+finding F18); nothing else changes -/
 theorem sendEffect_threads {w w' : World} {o : Nat} {v : Int} {s : ChanSt}
     (h : w.getChan o = .ok s) (hs : w.sendEffect o v = .ok w') (i : Nat) :
     w'.ths.get i =
       if s.msgCnt = 0 ∧ i ≠ w.tid ∧ (∃ op, (w.ths.get i).operation = some op ∧ op.obj = o) then
-        (w.ths.get i).setRunnable
+        (w.ths.get i).wake
       else w.ths.get i := by
   rw [sendEffect_eq w o v s h] at hs
   cases hs
